@@ -18,6 +18,8 @@ for marker,order,desc in (('Default','le','little endian'),('BigEndian','be','bi
         //@ fn exp:zvt_builder | impl Encoding<{t}> for {marker} | decode | mod=encoding props=C02,C17 $M
         //@ end
         open spec fn self_delimiting() -> bool {{ true }}
+        open spec fn dec_rel(b: Seq<u8>, v: &{t}, k: int) -> bool {{ true }}
+        open spec fn dec_total() -> bool {{ false }}
         open spec fn functional() -> bool {{ true }}
         proof fn law_dec_bounds(b: Seq<u8>) {{}}
         //@ tag enc.law_dec_frame.{order}.{t} C14
